@@ -67,7 +67,12 @@ TStuck == /\ Is("Stuck") /\ l' = l + 1
           /\ \A s \in Sides : \/ (ended[s] = "no" /\ (wfail[Other(s)] => fwd[s] = prod[s]))
                                \/ (wstall[Other(s)] /\ BlockedOn(Trace[l], Other(s)))
           /\ UNCHANGED <<prod, fwd, ended, wfail, closed, returned, wstall>>
-TNext == TWStall \/ TDrain \/ TReset \/ TProduce \/ TEnd \/ TWFail \/ TFwd \/ TClose \/ TReturned \/ TStuck
+\* `a` is a kernel socket whose peer reads only after the relay has returned: a side that ended (EOF or error) while the
+\* other was healthy has had ALL of its earlier bytes forwarded - they arrive, whatever way the relay closes
+TTcpRelay == /\ Is("TcpRelay") /\ l' = l + 1
+             /\ LET e == Trace[l] IN e.returned /\ e.ok /\ e.recv = e.prod
+             /\ UNCHANGED <<prod, fwd, ended, wfail, closed, returned, wstall>>
+TNext == TTcpRelay \/ TWStall \/ TDrain \/ TReset \/ TProduce \/ TEnd \/ TWFail \/ TFwd \/ TClose \/ TReturned \/ TStuck
 TraceSpec == TInit /\ [][TNext]_tvars
 HW == TLCSet(1, IF l - 1 > TLCGet(1) THEN l - 1 ELSE TLCGet(1))
 TraceAccepted == IF TLCGet(1) = Len(Trace) THEN TRUE ELSE PrintT(<<"REJECTED_AFTER", TLCGet(1)>>) /\ FALSE
